@@ -49,8 +49,21 @@ CHECKS = {
    text="1-3 loader tasks push through the real ChunkList while a coordinator snapshots (with/without --tail) and issues Reset requests to the real Matcher.Loop with 1..32 partitions under seeded schedules incl. CPU stalls; every published merger must equal the sequential filter of the frozen input of a request (in request order); frozen copies must stay equal to live snapshots; cache audit; scratch-slab exclusivity. Auxiliary (scenarios racer, racefilter): the same components, and whole `fzf --filter` processes, run in pass-through mode (yields are Gosched, 4 Ps, no imposed schedule) in a worker built with -race, because the deterministic scheduler's hand-offs order every access and hide data races from the detector by construction.",
    note="The race auxiliary is not deterministic and not replayable (its report carries plan, seed and the detector's stacks; --replay re-runs the plan up to 40 times under the detector); races are classified by the two conflicting call sites. One race on the unchanged tree is a recorded known finding (ChunkList.Snapshot chunk copy vs Chars.TrimLength cache write)."),
 }
+# what the later waves added (appended to the level text)
+ADDENDA = {
+ "C07": " Later additions: --accept-nth with every form of field index expression against a reference written from the man page, print(...) queue, one:accept after cursor moves, --read0 with long records outside ASCII.",
+ "C08": " Later additions: string --delimiter with --nth and records ending in delimiters; a mode aimed at the end of a reload-sync; convergence of the matcher loop alone across reloads.",
+ "C09": " Later additions: replace-query, next/prev-selected, offset-up/down (bounded slack, scroll offset not modelled), lines outside ASCII, adaptive heights, sessions closed with accept-or-print-query / accept-non-empty.",
+ "C13": " Later additions: a reload operation in the loop scenario (list cleared, ordinals restart, major revision, new loaders) with a mode aimed at the first searches after it; real reader/writer locks in the race auxiliary.",
+ "C14": " Later additions: every bindable action is bound in some run (robustness only), commands with {f}/{+f} temporary files in reload/execute/transform, process-table audit at the instant of become, cyclic preview windows, a terminal that does not answer the cursor position request.",
+ "C15": " Later additions: the --header text read as state (change-header with 0-3 lines, toggle-header also under reverse-list), --wrap (every row a contiguous piece of a result in view, pointer in view), --ellipsis / --keep-right / tabs (bounds only).",
+ "C16": " Later additions: every command-running action posted to non-local listeners, a key of white space only, jump mode while POSTs arrive, half-sent bodies, bounded socket buffers with a client that does not read, differential POST-vs---bind sessions (c16d).",
+ "C18": " Later additions: initial entries of up to 200 KB, --history-size taken from $FZF_DEFAULT_OPTS, sessions that end in become(...), transform-query as an edit between history steps.",
+ "C20": " Later additions: action chains that restart the preview away from the cursor and come back (focus ABA), threshold layouts, lingering and redrawing commands, zero-row list windows.",
+}
 checks=[]
 for pid,c in sorted(CHECKS.items()):
+    c["text"] += ADDENDA.get(pid, "")
     checks.append({
      "property_id":pid,
      "quick_cmd":"./check %s --tier quick"%pid,
